@@ -58,12 +58,15 @@ pub fn colours(steps: usize) -> Vec<[f32; 3]> {
 fn run_case<T: Pixel>(acc: &mut Acc, idx: u64, c: &Case, cols: &[[f32; 3]], report_only: bool) {
     let cfg = c.cfg();
     let (bw, bh) = (1usize << c.ss.0, 1usize << c.ss.1);
-    let (w, h) = (cols.len() * bw, bh);
-    // block-constant image: colour k fills block k
+    // block-constant image: colour k fills block k; subsampled images have 3 rows of blocks so
+    // that every chroma row/column position (first, middle, last) occurs
+    let brows = if c.ss == (0, 0) { 1 } else { 3 };
+    let bpr = (cols.len() + brows - 1) / brows;
+    let (w, h) = (bpr * bw, brows * bh);
     let mut data = vec![[0.0f32; 3]; w * h];
     for y in 0..h {
         for x in 0..w {
-            data[y * w + x] = cols[x / bw];
+            data[y * w + x] = cols[((y / bh) * bpr + x / bw) % cols.len()];
         }
     }
     acc.states += 1;
@@ -108,10 +111,11 @@ fn run_case<T: Pixel>(acc: &mut Acc, idx: u64, c: &Case, cols: &[[f32; 3]], repo
     acc.worst(&format!("diff/budget depth={} ss=({},{})", c.n, c.ss.0, c.ss.1), worst / budget, || c.json());
     if worst > budget {
         let col = cols[wpos.1 % cols.len().max(1)];
+        let _ = col;
         acc.violation(
             idx,
             format!("xyb-roundtrip-over-budget matrix={:?} transfer={:?} primaries={:?}", c.m, c.t, c.p),
-            format!("{c:?}: plane {} sample {} moved by {worst} codes > {budget:.2} (colour near {})", wpos.0, wpos.1, px3s(col)),
+            format!("{c:?}: plane {} sample {} moved by {worst} codes > {budget:.2} (image {}x{} of block-constant lattice colours)", wpos.0, wpos.1, w, h),
             c.json(),
         );
         acc.bucket("over budget", 1);
